@@ -162,7 +162,13 @@ func (s *UtxoStore) AddCredits(tx mwdb.DBTransaction, allBalances map[string]mas
 			return err
 		}
 		if addrV == nil || readAddressHeight(addrV) == 0 {
+			fromPayment := addrV == nil
 			addrV = valueAddressRecord(addrRecord)
+			if fromPayment {
+				// the address was not issued in this form: the record exists
+				// only as long as a payment in this form does
+				addrV = append(addrV, addressRecordPaymentMark)
+			}
 			err = putRawAddressRecord(nsAddresses, addrK, addrV)
 			if err != nil {
 				return err
